@@ -14,7 +14,8 @@ fn bytes_of(v: Option<&Value>) -> Vec<u8> {
     v.and_then(|x| x.as_array()).map(|a| a.iter().map(|b| b.as_u64().unwrap_or(0) as u8).collect()).unwrap_or_default()
 }
 
-fn msg(n: usize, salt: usize) -> Vec<u8> { (0..n).map(|i| ((i * 11 + salt * 7 + 3) % 256) as u8).collect() }
+/// message bytes without a short period (a period dividing a cipher's block size would hide a misplaced block)
+fn msg(n: usize, salt: usize) -> Vec<u8> { (0..n).map(|i| (((i as u64 + 1) * 2654435761u64 + salt as u64 * 40503) >> 9) as u8).collect() }
 
 fn client_iface(exported: &[u8]) -> Box<dyn GenericSecurityService> {
     Box::new(NTLMv2SecurityInterface::new(Rc4::new(&np::seal_key(exported, true)), Rc4::new(&np::seal_key(exported, false)), np::sign_key(exported, true), np::sign_key(exported, false)))
@@ -80,6 +81,12 @@ fn exercise(tr: &mut Tracer, p: &Value, iface: &mut Box<dyn GenericSecurityServi
                     let (res, ek) = res_of(&out);
                     let plain = if let Outcome::Done(Ok(x)) = &out { x.clone() } else { vec![] };
                     tr.event(json!({"ev": "unwrap", "token": t, "res": res, "ek": ek, "plain": plain, "prior": valid_tokens.len(), "fresh": true}));
+                    // the refused token presented once more to the same context
+                    if res == "err" && (t.len() < 16 || t[..16] != token[..16]) {
+                        let out2 = guarded(|| f.gss_unwrapex(&t));
+                        let (res2, ek2) = res_of(&out2);
+                        tr.event(json!({"ev": "unwrap_again", "token": t, "res": res2, "ek": ek2}));
+                    }
                 }
             }
             valid_tokens.push(token);
@@ -108,7 +115,7 @@ fn run_plan(p: &Value, tr: &mut Tracer) {
     // (another server challenge) is played and thrown away before the one that is validated
     if p.get("reuse").and_then(|x| x.as_bool()).unwrap_or(false) {
         let _ = guarded(|| ntlm.create_negotiate_message());
-        let spec0 = np::ChallengeSpec { flags: np::FLAGS_DEFAULT, challenge: [9, 8, 7, 6, 5, 4, 3, 2], target_name: vec![], target_info: { let mut t = np::av_pair(7, &[1, 2, 3, 4, 5, 6, 7, 8]); t.extend(np::av_pair(0, &[])); t } };
+        let spec0 = np::ChallengeSpec { flags: p.get("reuse_flags").and_then(|x| x.as_u64()).map(|x| x as u32).unwrap_or(np::FLAGS_DEFAULT), challenge: [9, 8, 7, 6, 5, 4, 3, 2], target_name: vec![], target_info: { let mut t = np::av_pair(7, &[1, 2, 3, 4, 5, 6, 7, 8]); t.extend(np::av_pair(0, &[])); t } };
         let _ = guarded(|| ntlm.read_challenge_message(&np::challenge_message(&spec0)));
         let _ = guarded(|| ntlm.build_security_interface());
     }
